@@ -27,6 +27,7 @@ import (
 	"os"
 	"path/filepath"
 	"sort"
+	"strings"
 	"sync"
 	"sync/atomic"
 	"syscall"
@@ -1062,6 +1063,7 @@ func driveBlocksSeq(opt *Options) error {
 	}
 	if big {
 		notes = append(notes, blkBulk(rnd, page)...)
+		blkBulkOdd(tw, rnd, page)
 	}
 	out, _ := json.MarshalIndent(map[string]any{"notes": notes, "runs": cfgs}, "", " ")
 	return os.WriteFile(opt.Out+".notes.json", out, 0o644)
@@ -1182,6 +1184,94 @@ func blkBulk(rnd *rand.Rand, page int) []blkNote {
 	e.do(Step{"op": "Arrange"}, true) // exhausted again
 	e.verifyPatterns()
 	return e.notes
+}
+
+// blkBulkOdd: a block size that is a multiple of the page size but NOT a power of two (3 pages), one segment of
+// 24 * page + ... blocks in an anonymous mapping (1.2 GB of address space, only the header and a few block pages are
+// touched), filled beyond 8 * page blocks - the first point where the bitmap of such a geometry is longer than a
+// power-of-two bitmap would be.  One summary event; the contract is in BlocksTrace.tla (Scenario, op = "Bulk").
+func blkBulkOdd(tw *TraceWriter, rnd *rand.Rand, page int) {
+	bs := 3 * page
+	ev := map[string]any{"op": "Bulk", "bs": bs, "n": 0, "count": -1, "dups": 0, "errs": 0, "avail": -1, "refree": 0,
+		"freed": 0, "avail2": -1, "reopen_avail": -1, "mismatch": 0, "skipped": false}
+	defer func() { tw.Emit(ev) }()
+	m, err := newAnonBacking(segBytes(bs))
+	if err != nil {
+		ev["skipped"] = true // no address space for the mapping: nothing observed, nothing judged
+		return
+	}
+	defer m.closeRemove()
+	defer func() {
+		if p := recover(); p != nil {
+			ev["crash"] = firstLine(fmt.Sprint(p))
+		}
+	}()
+	b, err := gbytes.NewBlocks(bs, m.buffer(), false)
+	if err != nil {
+		ev["crash"] = "NewBlocks: " + err.Error()
+		return
+	}
+	cnt := b.Count()
+	n := 8*page + 1000 + rnd.Intn(1000)
+	alloc := make([]bool, cnt)
+	dups, errs := 0, 0
+	for k := 0; k < n; k++ {
+		idx, err := b.ArrangeBlock()
+		switch {
+		case err != nil || idx < 0 || idx >= cnt:
+			errs++
+		case alloc[idx]:
+			dups++
+		default:
+			alloc[idx] = true
+			if k%64 == 0 || idx >= 8*page-2 && idx <= 8*page+2 {
+				if blk, err := b.Block(idx); err == nil && len(blk) == bs {
+					blk[0], blk[bs-1] = 0xA5, 0x5A
+				} else {
+					errs++
+				}
+			}
+		}
+	}
+	ev["n"], ev["count"], ev["dups"], ev["errs"], ev["avail"] = n, cnt, dups, errs, b.Available()
+	// release blocks on both sides of index 8 * page, each once; a second release must fail
+	var frees []int
+	for _, i := range []int{0, 1, 2, page, 8*page - 1, 8 * page, 8*page + 1, n - 1, n - 2} {
+		frees = append(frees, i)
+	}
+	for k := 0; k < 60; k++ {
+		frees = append(frees, rnd.Intn(n))
+	}
+	freed, refree := 0, 0
+	for _, i := range frees {
+		if i < 0 || i >= cnt || !alloc[i] {
+			continue
+		}
+		if b.FreeBlock(i) == nil {
+			freed++
+			alloc[i] = false
+			if b.FreeBlock(i) == nil {
+				refree++
+			}
+		} else {
+			errs++
+		}
+	}
+	ev["errs"], ev["freed"], ev["refree"], ev["avail2"] = errs, freed, refree, b.Available()
+	// a second allocator over the same bytes sees exactly the blocks still held
+	b2, err := gbytes.NewBlocks(bs, m.buffer(), false)
+	if err != nil {
+		ev["crash"] = "NewBlocks (reopen): " + err.Error()
+		return
+	}
+	ev["reopen_avail"] = b2.Available()
+	mism := 0
+	for i := 0; i < cnt && i < n+64; i++ {
+		if (b2.FreeBlock(i) == nil) != alloc[i] {
+			mism++
+		}
+	}
+	ev["mismatch"] = mism
 }
 
 // ---------------------------------------------------------------- concurrent
@@ -1551,9 +1641,11 @@ func blkBufferScenarios(tw *TraceWriter, rnd *rand.Rand) {
 		sort.Ints(l)
 		return l
 	}
-	for _, kind := range []string{"inmem", "mm"} {
+	for _, kind := range []string{"inmem", "mm", "inmem-full", "mm-full"} {
 		for _, bs := range []int{16, 64} {
-			ev := map[string]any{"op": "Grow", "kind": kind, "bs": bs}
+			ev := map[string]any{"op": "Grow", "kind": kind, "bs": bs, "dup": false}
+			full := strings.HasSuffix(kind, "-full") // the allocator is exhausted before its buffer grows by whole segments
+			kind := strings.TrimSuffix(kind, "-full")
 			dir, _ := os.MkdirTemp("", "vh-blk-grow-")
 			func() {
 				defer os.RemoveAll(dir)
@@ -1578,20 +1670,30 @@ func blkBufferScenarios(tw *TraceWriter, rnd *rand.Rand) {
 					panic(err)
 				}
 				held := map[int]bool{}
-				for k := 0; k < 5+rnd.Intn(20); k++ {
-					if i, err := b.ArrangeBlock(); err == nil {
-						held[i] = true
+				take := func(n int) {
+					for k := 0; k < n; k++ {
+						if i, err := b.ArrangeBlock(); err == nil {
+							if held[i] {
+								ev["dup"] = true // an index handed out while still allocated
+							}
+							held[i] = true
+						}
 					}
 				}
-				if err := buf.Grow(size + 4096*int64(1+rnd.Intn(3))); err != nil {
+				if full {
+					take(b.Count() + 2)
+				} else {
+					take(5 + rnd.Intn(20))
+				}
+				grow := 4096 * int64(1+rnd.Intn(3))
+				if full {
+					grow = 4096 * (1 + (int64(1+rnd.Intn(2))*segBytes(bs)-1)/4096)
+				}
+				if err := buf.Grow(size + grow); err != nil {
 					panic(err)
 				}
 				// the same object goes on working over the grown buffer
-				for k := 0; k < 3+rnd.Intn(10); k++ {
-					if i, err := b.ArrangeBlock(); err == nil {
-						held[i] = true
-					}
-				}
+				take(3 + rnd.Intn(10))
 				for i := range held {
 					if rnd.Intn(3) == 0 {
 						if b.FreeBlock(i) == nil {
@@ -1612,10 +1714,11 @@ func blkBufferScenarios(tw *TraceWriter, rnd *rand.Rand) {
 					panic(err)
 				}
 				ev["count"], ev["avail"] = b2.Count(), b2.Available()
+				ev["live_count"], ev["live_avail"] = b.Count(), b.Available()
 				ev["got"], ev["want"] = probe(b2), keys(held)
 				buf.Close()
 			}()
-			for _, k := range []string{"count", "avail"} {
+			for _, k := range []string{"count", "avail", "live_count", "live_avail"} {
 				if _, ok := ev[k]; !ok {
 					ev[k] = -1
 				}
